@@ -1,5 +1,5 @@
 SPECIFICATION TraceSpec
 CONSTRAINT HighWater
-INVARIANTS NoFabrication SameOperation Independent SkipJustified SkipHonoured ErrorReportedPerFetch DepsSettled ResponseWellFormed ErrorsNonEmpty Isolated
+INVARIANTS NoFabrication SameOperation Independent SkipJustified SkipHonoured ErrorReportedPerFetch DepsSettled ResponseWellFormed ErrorsNonEmpty Isolated RepeatClean
 POSTCONDITION TraceAccepted
 CHECK_DEADLOCK FALSE
